@@ -139,7 +139,7 @@ def _work(behs):
 
 
 INVS = ['TypeOK', 'MissingIffAllOnes', 'LinksPointBack', 'BackRefWindowIsPlain', 'BackRefWindowAscending',
-        'AssocPrecedesOwner', 'DiffStatsParams', 'MeaningIsRightElement', 'FramesNested']
+        'AssocPrecedesOwner', 'MeaningIsRightElement', 'FramesNested']
 
 
 def run(run):
@@ -153,7 +153,7 @@ def run(run):
         for n, ts in sorted(templates(nmax, thorough).items()):
             counts = (1, 2) if n <= (3 if thorough else 2) else (1,)
             res = fm94.gen_run(wd, 'MC_c07_N%d' % n, ts, compressions=(False, True), subset_counts=counts, fmax=2,
-                               seeds=((rot + n) % 5,), slack=0, invariants=INVS, properties=('KthValueKthZero',),
+                               seeds=((rot + n) % 5,), slack=0, invariants=INVS, properties=('KthValueKthZero', 'DiffStatsParams'),
                                editions=(4,) if n % 2 else (3,))
             if res.violated:
                 run.violation(('spec', res.violated, 'N=%d' % n), 'FM94 property %s violated' % res.violated, tlc.error_trace(res))
@@ -173,6 +173,27 @@ def run(run):
                 b = behs[len(behs) // 2]
                 run.sample({'ids': b['ids'], 'cmp': b['cmp'], 'nsub': b['nsub'],
                             'links_subset0': [(k, e['link'] - 1) for k, e in enumerate(b['subsets'][0]) if e['link'] > 0]}, limit=5)
+        # grammar-derived bitmap templates of this seed (vf/gen.py): operators in force at markers, reuse / cancel chains,
+        # replications and sequences in front of the window
+        from .. import catalogue
+        rnd = catalogue.catalogue(run.tier, seed())['rnd_bitmap']
+        res = fm94.gen_run(wd, 'MC_c07_rnd', rnd, compressions=(False, True), subset_counts=(1, 2), fmax=2, seeds=(rot,), slack=0,
+                           invariants=INVS, properties=('KthValueKthZero', 'DiffStatsParams'))
+        if res.violated:
+            run.violation(('spec', res.violated, 'rnd'), 'FM94 property %s violated' % res.violated, tlc.error_trace(res))
+        run.add_tlc(res, 'FM94 produce, %d grammar-derived bitmap templates' % len(rnd))
+        behs = [b for b in res.iter_emitted() if not b['err']]
+        chunks = [behs[i:i + 30] for i in range(0, len(behs), 30)]
+        if chunks:
+            with mp.get_context('fork').Pool(14, initializer=fm94._init_worker) as pool:
+                out = [x for c in pool.map(_work, chunks) for x in c]
+            for beh, bad in zip(behs, out):
+                run.traces += 1
+                if any(e['link'] > 0 for s in beh['subsets'] for e in s):
+                    run.nontriv(fm94.structure_key(beh) + (tuple(tuple(e['link'] for e in s) for s in beh['subsets']),))
+                    nlinks += 1
+                if bad:
+                    run.violation(('bitmap',) + tuple(bad[0]), bad[1], {'kind': 'behaviour', 'behaviour': beh})
         run.notes['behaviours_with_at_least_one_link'] = nlinks
     finally:
         rm_workdir(wd)
